@@ -194,7 +194,7 @@ verif_harness! {
     stubs: [(crate::sse2::backends::transform, stub_transform), (crate::sse2::backends::sub_bytes, stub_sub_bytes)],
     prop: |inp| { k::w_enc_rk(inp, Route::RefClone) }
 }
-//@ harness name=kuz_sse2_par4 prop=C04,C20 tier=quick bits=1792 stub=1 est=217 need=8 desc="W: KuznyechikEnc::encrypt_blocks on 4 blocks (exactly one 4-wide encrypt_par_blocks batch of the sse2 back end) == four encrypt_block calls on the same instance, all four output blocks; arbitrary round keys, all block contents"
+//@ harness name=kuz_sse2_par4 prop=C04,C20 tier=thorough bits=1792 stub=1 est=315 need=9 desc="W: KuznyechikEnc::encrypt_blocks on 4 blocks (exactly one 4-wide encrypt_par_blocks batch of the sse2 back end) == four encrypt_block calls on the same instance, all four output blocks; arbitrary round keys, all block contents"
 verif_harness! {
     name: kuz_sse2_par4,
     bytes: 160 + 64,
